@@ -325,6 +325,10 @@ Definition tx_accept (i : tx_in) : tx_verdict :=
 Definition he_idrule_ok (r : he_idrule) : bool :=
   match idr_form r with IdHashOfHexDecode | IdHashOfBytes => true end.
 
+(* VerifyPublicKeyClientID / Transaction.ComputeClientID: the id is accepted for a key exactly when it
+   is, character for character, the canonical (lower-case hex) hash of the key bytes *)
+Definition cl_accepts_id (id key_hash : string) : bool := String.eqb id key_hash.
+
 (* Client.Validate: id non-empty and equal to Hash(PublicKeyBytes) *)
 Definition cl_validate (id key_hash : string) : bool :=
   negb (String.eqb id "") && String.eqb id key_hash.
